@@ -156,7 +156,17 @@ def random_series(rng, n):
         x = rng.choice(rng.normal(size=4), size=n)
     else:
         x = np.round(rng.normal(size=n), 1)
-    return x, ['noise', 'intwalk', 'flatends', 'clipped', 'plateau', 'fewlevels', 'rounded'][k]
+    name = ['noise', 'intwalk', 'flatends', 'clipped', 'plateau', 'fewlevels', 'rounded'][k]
+    r = rng.random()
+    if r < 0.15:      # smooth, finely sampled: steps near the extremum are far below 1e-8 but not zero
+        x = np.cos(10 ** rng.uniform(-5, -2) * (np.arange(n) - rng.uniform(0, n))) * 10 ** rng.uniform(-3, 3)
+        name = 'smooth-fine'
+    elif r < 0.45:    # amplitude scales 1e-12 .. 1e6 (micro-amplitude records), optionally on a large offset
+        x = x * 10 ** rng.uniform(-12, 6)
+        if rng.random() < 0.3:
+            x = x + rng.choice([1.0, -1e3, 1e-6])
+        name += '-scaled'
+    return x, name
 
 
 def run_shard(ctx):
@@ -173,13 +183,15 @@ def run_shard(ctx):
             if idx % ctx.nshards != ctx.shard:
                 continue
             nontriv = len(set(seq)) > 1
-            for variant in (0, 1, 2):
+            for variant in ((0, 1, 2, 3) if L <= 6 else (0, 1, 2)):
                 if variant == 0:
                     s = np.array(seq, dtype=float)
                 elif variant == 1:
                     s = np.array(seq, dtype=np.int64)
-                else:
+                elif variant == 2:
                     s = np.array(seq, dtype=float) - 2.0
+                else:
+                    s = np.array(seq, dtype=float) * 3e-10 + 1.0    # micro steps on an offset
                 n_enum += 1
                 n_nontriv += nontriv
                 if not nontriv:
